@@ -17,6 +17,11 @@ inductive PyExc where
   | fuel
   /-- `None.<attr>` -/
   | attributeError
+  /-- RecursionError: a translated self-recursive function was entered with no Python frame left (`fuel = 0`, see harness/pytrans.py);
+  the same outcome at every fuel means that the real call never returns normally -/
+  | recursion
+  /-- RuntimeError, e.g. "dictionary changed size during iteration" -/
+  | runtimeError (msg : String)
   deriving DecidableEq, Repr
 
 abbrev PSet := List Nat
